@@ -1,8 +1,304 @@
 (* App/WritersProofs.v — P1 encode_parse_round_trip for the modelled writers (App/Writers.v): what
    HeaderWriter writes for a request is parsed by parse_fragment / headers_of into exactly the header,
-   the object headers, the indices and the object bytes that were written, every byte consumed. *)
+   the object headers, the indices and the object bytes that were written, every byte consumed.
+   Includes the free-format file objects g70v2 .. g70v8: result of `write`, layout of the body (size
+   fields = byte lengths), round trip against aparse_free, and write_free_format inside a request. *)
 From Dnp3V Require Import App.Writers App.GrammarProofs.
 Open Scope N_scope.
+
+(* ---------------------------------------------------------------------------------------------- *)
+(* free-format file objects (g70v2 .. g70v8): the writers against the reader aparse_free            *)
+
+(* the fixed-size fields in front of the strings: widths, the values written (the size fields are the
+   BYTE lengths `alen` of the strings), and the strings / data that follow *)
+Definition afree_widths (o : afree) : list N :=
+  match o with
+  | F70v2 _ => [2; 2; 2; 2; 4]
+  | F70v3 _ => [2; 2; 6; 2; 4; 4; 2; 2; 2]
+  | F70v4 _ => [4; 4; 2; 2; 1]
+  | F70v5 _ => [4; 4]
+  | F70v6 _ => [4; 4; 1]
+  | F70v7 _ => [2; 2; 2; 4; 6; 2; 2]
+  | F70v8 _ => []
+  end.
+
+Definition afree_values (o : afree) : list N :=
+  match o with
+  | F70v2 x => [g70v2_user_name_offset; alen (f2_user_name x); g70v2_user_name_offset + alen (f2_user_name x);
+                alen (f2_password x); f2_auth_key x]
+  | F70v3 x => [g70v3_file_name_offset; alen (f3_file_name x); f3_time x; f3_permissions x; f3_auth_key x;
+                f3_file_size x; f3_mode x; f3_max_block_size x; f3_request_id x]
+  | F70v4 x => [f4_file_handle x; f4_file_size x; f4_max_block_size x; f4_request_id x; f4_status x]
+  | F70v5 x => [f5_file_handle x; f5_block_number x]
+  | F70v6 x => [f6_file_handle x; f6_block_number x; f6_status x]
+  | F70v7 x => [g70v7_file_name_offset; alen (f7_file_name x); f7_file_type x; f7_file_size x; f7_time x;
+                f7_permissions x; f7_request_id x]
+  | F70v8 _ => []
+  end.
+
+Definition afree_tail (o : afree) : list N :=
+  match o with
+  | F70v2 x => f2_user_name x ++ f2_password x
+  | F70v3 x => f3_file_name x
+  | F70v4 x => f4_text x
+  | F70v5 x => f5_file_data x
+  | F70v6 x => f6_text x
+  | F70v7 x => f7_file_name x
+  | F70v8 x => f8_file_specification x
+  end.
+
+(* what aparse_free reports about an object (and the harness lists): the byte lengths of its strings *)
+Definition afree_lengths (o : afree) : list N :=
+  match o with
+  | F70v2 x => [alen (f2_user_name x); alen (f2_password x)]
+  | F70v3 x => [alen (f3_file_name x)]
+  | F70v4 x => [alen (f4_text x)]
+  | F70v5 x => [alen (f5_file_data x)]
+  | F70v6 x => [alen (f6_text x)]
+  | F70v7 x => [alen (f7_file_name x)]
+  | F70v8 x => [alen (f8_file_specification x)]
+  end.
+
+(* the sizes and the one computed offset fit their 16-bit fields *)
+Definition afree_sizes_fit (o : afree) : Prop :=
+  match o with
+  | F70v2 x => g70v2_user_name_offset + alen (f2_user_name x) <= 65535 /\ alen (f2_password x) <= 65535
+  | F70v3 x => alen (f3_file_name x) <= 65535
+  | F70v7 x => alen (f7_file_name x) <= 65535
+  | _ => True
+  end.
+
+(* the &str fields hold well-formed UTF-8 (always true of a Rust &str), the data is made of bytes *)
+Definition afree_strings_ok (o : afree) : Prop :=
+  match o with
+  | F70v2 x => autf8 (f2_user_name x) = true /\ autf8 (f2_password x) = true
+  | F70v3 x => autf8 (f3_file_name x) = true
+  | F70v4 x => autf8 (f4_text x) = true
+  | F70v5 x => abytes_ok (f5_file_data x)
+  | F70v6 x => autf8 (f6_text x) = true
+  | F70v7 x => autf8 (f7_file_name x) = true
+  | F70v8 x => autf8 (f8_file_specification x) = true
+  end.
+
+(* every numeric field is within the width it is written with *)
+Definition afree_fields_ok (o : afree) : Prop :=
+  Forall2 (fun w x => x < 256 ^ w) (afree_widths o) (afree_values o).
+
+(* ---- the result of `write`: the body, or Overflow exactly when a size does not fit ---- *)
+
+Lemma afits16_true x : afits16 x = true <-> x <= 65535.
+Proof. unfold afits16. apply N.leb_le. Qed.
+
+Lemma afits16_false x : afits16 x = false <-> ~ x <= 65535.
+Proof. unfold afits16. rewrite N.leb_gt. lia. Qed.
+
+Theorem free_write_result o :
+  (afree_sizes_fit o /\ awrite_free o = AOk (fw_body o))
+  \/ (~ afree_sizes_fit o /\ awrite_free o = AErr WENumeric).
+Proof.
+  unfold awrite_free.
+  destruct o as [x|x|x|x|x|x|x]; cbn [fw_steps afree_sizes_fit]; try (left; split; [exact I|reflexivity]).
+  - cbn [fw_cut fst snd].
+    destruct (afits16 (alen (f2_user_name x))) eqn:H1; cbn [fw_cut fst snd].
+    + destruct (afits16 (g70v2_user_name_offset + alen (f2_user_name x))) eqn:H2; cbn [fw_cut fst snd].
+      * destruct (afits16 (alen (f2_password x))) eqn:H3; cbn [fw_cut fst snd].
+        -- left. apply afits16_true in H2. apply afits16_true in H3. auto.
+        -- right. apply afits16_false in H3. split; [intros [_ H]; auto|reflexivity].
+      * right. apply afits16_false in H2. split; [intros [H _]; auto|reflexivity].
+    + right. apply afits16_false in H1. split; [|reflexivity]. intros [H _]. apply H1.
+      unfold g70v2_user_name_offset in H. lia.
+  - cbn [fw_cut fst snd]. destruct (afits16 (alen (f3_file_name x))) eqn:H1; cbn [fw_cut fst snd].
+    + left. apply afits16_true in H1. auto.
+    + right. apply afits16_false in H1. auto.
+  - cbn [fw_cut fst snd]. destruct (afits16 (alen (f7_file_name x))) eqn:H1; cbn [fw_cut fst snd].
+    + left. apply afits16_true in H1. auto.
+    + right. apply afits16_false in H1. auto.
+Qed.
+
+Lemma free_write_ok o body : awrite_free o = AOk body -> body = fw_body o /\ afree_sizes_fit o.
+Proof.
+  intro H. destruct (free_write_result o) as [[Hs E]|[_ E]]; rewrite E in H; [|discriminate].
+  inversion H. auto.
+Qed.
+
+(* ---- layout: fixed fields (sizes = byte lengths, constant offsets), then the strings ---- *)
+
+Theorem free_body_layout o : fw_body o = awrite_fields (afree_widths o) (afree_values o) ++ afree_tail o.
+Proof.
+  unfold fw_body.
+  destruct o as [x|x|x|x|x|x|x];
+    cbn [fw_steps fw_bytes afree_widths afree_values afree_tail awrite_fields N.to_nat Pos.to_nat Pos.iter_op Nat.add];
+    rewrite ?app_nil_r, <- ?app_assoc; reflexivity.
+Qed.
+
+(* reading the fields back gives the values written: in particular the size fields decode to the byte
+   lengths of the strings that follow, and the strings are all that follows *)
+Theorem free_fields_round_trip o rest : afree_fields_ok o ->
+  aread_fields (afree_widths o) (fw_body o ++ rest) = Some (afree_values o, afree_tail o ++ rest).
+Proof.
+  intro H. rewrite free_body_layout, <- app_assoc. apply aread_fields_write. exact H.
+Qed.
+
+(* ---- cursor lemmas for aparse_free ---- *)
+
+Lemma autf8_bytes_ok_n : forall n l, (length l <= n)%nat -> autf8 l = true -> abytes_ok l.
+Proof.
+  induction n as [|n IH]; intros l Hl H.
+  - destruct l; [constructor|cbn [length] in Hl; lia].
+  - destruct l as [|b0 r]; [constructor|]. cbn [length] in Hl. cbn [autf8] in H.
+    destruct (b0 <? 128) eqn:H0.
+    { apply N.ltb_lt in H0. constructor; [lia|]. apply IH; [lia|exact H]. }
+    unfold ain, acont in H.
+    destruct ((194 <=? b0) && (b0 <=? 223)) eqn:H1.
+    { apply andb_prop in H1. destruct H1 as [_ H1]. apply N.leb_le in H1.
+      destruct r as [|b1 r1]; [discriminate|]. apply andb_prop in H. destruct H as [Hc H].
+      unfold ain in Hc. apply andb_prop in Hc. destruct Hc as [_ Hc]. apply N.leb_le in Hc. cbn [length] in Hl.
+      constructor; [lia|]. constructor; [lia|]. apply IH; [lia|exact H]. }
+    destruct ((224 <=? b0) && (b0 <=? 239)) eqn:H2.
+    { apply andb_prop in H2. destruct H2 as [_ H2]. apply N.leb_le in H2.
+      destruct r as [|b1 [|b2 r2]]; try discriminate. cbn [length] in Hl.
+      apply andb_prop in H. destruct H as [H Hr]. apply andb_prop in H. destruct H as [Hb1 Hb2].
+      apply andb_prop in Hb2. destruct Hb2 as [_ Hb2]. apply N.leb_le in Hb2.
+      assert (Hb1' : b1 <= 191).
+      { destruct (b0 =? 224); [|destruct (b0 =? 237)]; apply andb_prop in Hb1; destruct Hb1 as [_ Hb1];
+          apply N.leb_le in Hb1; lia. }
+      constructor; [lia|]. constructor; [lia|]. constructor; [lia|]. apply IH; [lia|exact Hr]. }
+    destruct ((240 <=? b0) && (b0 <=? 244)) eqn:H3; [|discriminate].
+    apply andb_prop in H3. destruct H3 as [_ H3]. apply N.leb_le in H3.
+    destruct r as [|b1 [|b2 [|b3 r3]]]; try discriminate. cbn [length] in Hl.
+    apply andb_prop in H. destruct H as [H Hr]. apply andb_prop in H. destruct H as [H Hb3].
+    apply andb_prop in H. destruct H as [Hb1 Hb2].
+    apply andb_prop in Hb2. destruct Hb2 as [_ Hb2]. apply N.leb_le in Hb2.
+    apply andb_prop in Hb3. destruct Hb3 as [_ Hb3]. apply N.leb_le in Hb3.
+    assert (Hb1' : b1 <= 191).
+    { destruct (b0 =? 240); [|destruct (b0 =? 244)]; apply andb_prop in Hb1; destruct Hb1 as [_ Hb1];
+        apply N.leb_le in Hb1; lia. }
+    constructor; [lia|]. constructor; [lia|]. constructor; [lia|]. constructor; [lia|]. apply IH; [lia|exact Hr].
+Qed.
+
+Lemma autf8_bytes_ok l : autf8 l = true -> abytes_ok l.
+Proof. apply (autf8_bytes_ok_n (length l)). lia. Qed.
+
+Lemma ale_bytes_2 x : ale_bytes 2 x = [lo8 x; hi8 x].
+Proof. reflexivity. Qed.
+
+Lemma ard16e_le x r : x <= 65535 -> ard16e (ale_bytes 2 x ++ r) = AOk (x, r).
+Proof.
+  intro H. rewrite ale_bytes_2. cbn [app]. unfold ard16e. rewrite ard16_enc by lia. reflexivity.
+Qed.
+
+Lemma atake_app : forall a r n, alen a <= n ->
+  atake (a ++ r) n = match atake r (n - alen a) with Some (b, c) => Some (a ++ b, c) | None => None end.
+Proof.
+  unfold alen. induction a as [|x a IH]; intros r n H.
+  - cbn [app length N.of_nat]. rewrite N.sub_0_r. destruct (atake r n) as [[b c]|]; reflexivity.
+  - cbn [app length] in *. cbn [atake]. destruct (n =? 0) eqn:Hn; [apply N.eqb_eq in Hn; lia|].
+    rewrite IH by lia. replace (N.pred n - N.of_nat (length a)) with (n - N.of_nat (S (length a))) by lia.
+    destruct (atake r (n - N.of_nat (S (length a)))) as [[b c]|]; reflexivity.
+Qed.
+
+Lemma askip_chunk k x r n : N.of_nat k <= n -> askip (ale_bytes k x ++ r) n = askip r (n - N.of_nat k).
+Proof.
+  intro H. unfold askip. rewrite atake_app by (unfold alen; rewrite ale_bytes_length; exact H).
+  unfold alen. rewrite ale_bytes_length. destruct (atake r (n - N.of_nat k)) as [[b c]|]; reflexivity.
+Qed.
+
+Lemma askip_zero r : askip r 0 = AOk r.
+Proof. unfold askip. rewrite atake_zero. reflexivity. Qed.
+
+Lemma atake_o_app a r : atake_o (a ++ r) (alen a) = AOk (a, r).
+Proof. unfold atake_o, alen. rewrite atake_complete. reflexivity. Qed.
+
+Lemma atake_o_all a : atake_o a (alen a) = AOk (a, []).
+Proof. rewrite <- (app_nil_r a) at 1. apply atake_o_app. Qed.
+
+(* ---- the round trip against the reader ---- *)
+
+(* whatever `write` produces for an object whose strings are UTF-8, `read` (aparse_free: the offsets must be
+   the constants / the implied ones, the sizes must be the exact byte counts, the strings must be UTF-8,
+   nothing may be left over) accepts, reporting the byte lengths of the strings and consuming every byte *)
+Theorem free_parse_round_trip o body : afree_strings_ok o -> awrite_free o = AOk body ->
+  aparse_free (afree_var o) body = AOk (afree_lengths o, []).
+Proof.
+  intros Hs Hw. apply free_write_ok in Hw. destruct Hw as [E Hfit]. subst body. unfold fw_body.
+  destruct o as [x|x|x|x|x|x|x]; cbn [afree_var afree_lengths afree_strings_ok afree_sizes_fit fw_steps fw_bytes] in *;
+    unfold aparse_free.
+  - destruct Hs as [Hu Hp]. destruct Hfit as [Hf1 Hf2].
+    change (2 =? 2) with true. cbn iota.
+    rewrite ard16e_le by (unfold g70v2_user_name_offset; lia).
+    rewrite N.eqb_refl. cbn [negb].
+    rewrite ard16e_le by (unfold g70v2_user_name_offset in Hf1; lia).
+    replace (65535 <? g70v2_user_name_offset + alen (f2_user_name x)) with false by (symmetry; apply N.ltb_ge; exact Hf1).
+    rewrite ard16e_le by exact Hf1. rewrite N.eqb_refl. cbn [negb].
+    rewrite ard16e_le by exact Hf2.
+    rewrite askip_chunk by (cbn; lia). change (4 - N.of_nat 4) with 0. rewrite askip_zero.
+    rewrite atake_o_app. rewrite app_nil_r. rewrite atake_o_all. rewrite Hu, Hp. reflexivity.
+  - change (3 =? 2) with false. change (3 =? 3) with true. cbn iota.
+    rewrite ard16e_le by (unfold g70v3_file_name_offset; lia). rewrite N.eqb_refl. cbn [negb].
+    rewrite ard16e_le by exact Hfit.
+    rewrite askip_chunk by (cbn; lia). change (22 - N.of_nat 6) with 16.
+    rewrite askip_chunk by (cbn; lia). change (16 - N.of_nat 2) with 14.
+    rewrite askip_chunk by (cbn; lia). change (14 - N.of_nat 4) with 10.
+    rewrite askip_chunk by (cbn; lia). change (10 - N.of_nat 4) with 6.
+    rewrite askip_chunk by (cbn; lia). change (6 - N.of_nat 2) with 4.
+    rewrite askip_chunk by (cbn; lia). change (4 - N.of_nat 2) with 2.
+    rewrite askip_chunk by (cbn; lia). change (2 - N.of_nat 2) with 0. rewrite askip_zero.
+    rewrite app_nil_r. rewrite atake_o_all. rewrite Hs. reflexivity.
+  - change (4 =? 2) with false. change (4 =? 3) with false. change (4 =? 4) with true. cbn iota.
+    rewrite askip_chunk by (cbn; lia). change (13 - N.of_nat 4) with 9.
+    rewrite askip_chunk by (cbn; lia). change (9 - N.of_nat 4) with 5.
+    rewrite askip_chunk by (cbn; lia). change (5 - N.of_nat 2) with 3.
+    rewrite askip_chunk by (cbn; lia). change (3 - N.of_nat 2) with 1.
+    rewrite askip_chunk by (cbn; lia). change (1 - N.of_nat 1) with 0. rewrite askip_zero.
+    rewrite app_nil_r. rewrite Hs. reflexivity.
+  - change (5 =? 2) with false. change (5 =? 3) with false. change (5 =? 4) with false. change (5 =? 5) with true.
+    cbn iota.
+    rewrite askip_chunk by (cbn; lia). change (8 - N.of_nat 4) with 4.
+    rewrite askip_chunk by (cbn; lia). change (4 - N.of_nat 4) with 0. rewrite askip_zero.
+    rewrite app_nil_r. reflexivity.
+  - change (6 =? 2) with false. change (6 =? 3) with false. change (6 =? 4) with false. change (6 =? 5) with false.
+    change (6 =? 6) with true. cbn iota.
+    rewrite askip_chunk by (cbn; lia). change (9 - N.of_nat 4) with 5.
+    rewrite askip_chunk by (cbn; lia). change (5 - N.of_nat 4) with 1.
+    rewrite askip_chunk by (cbn; lia). change (1 - N.of_nat 1) with 0. rewrite askip_zero.
+    rewrite app_nil_r. rewrite Hs. reflexivity.
+  - change (7 =? 2) with false. change (7 =? 3) with false. change (7 =? 4) with false. change (7 =? 5) with false.
+    change (7 =? 6) with false. change (7 =? 7) with true. cbn iota.
+    rewrite ard16e_le by (unfold g70v7_file_name_offset; lia). rewrite N.eqb_refl. cbn [negb].
+    rewrite ard16e_le by exact Hfit.
+    rewrite askip_chunk by (cbn; lia). change (16 - N.of_nat 2) with 14.
+    rewrite askip_chunk by (cbn; lia). change (14 - N.of_nat 4) with 10.
+    rewrite askip_chunk by (cbn; lia). change (10 - N.of_nat 6) with 4.
+    rewrite askip_chunk by (cbn; lia). change (4 - N.of_nat 2) with 2.
+    rewrite askip_chunk by (cbn; lia). change (2 - N.of_nat 2) with 0. rewrite askip_zero.
+    rewrite app_nil_r. rewrite atake_o_all. rewrite Hs. reflexivity.
+  - change (8 =? 2) with false. change (8 =? 3) with false. change (8 =? 4) with false. change (8 =? 5) with false.
+    change (8 =? 6) with false. change (8 =? 7) with false. change (8 =? 8) with true. cbn iota.
+    rewrite app_nil_r. rewrite Hs. reflexivity.
+Qed.
+
+Lemma awrite_fields_ok : forall ws xs, abytes_ok (awrite_fields ws xs).
+Proof.
+  induction ws as [|w ws IH]; intros [|x xs]; cbn [awrite_fields]; try constructor.
+  apply abytes_ok_app. split; [apply ale_bytes_ok|apply IH].
+Qed.
+
+Lemma afree_tail_ok o : afree_strings_ok o -> abytes_ok (afree_tail o).
+Proof.
+  destruct o as [x|x|x|x|x|x|x]; cbn [afree_strings_ok afree_tail]; intro H; try (apply autf8_bytes_ok; exact H); [|exact H].
+  destruct H as [H1 H2]. apply abytes_ok_app. split; apply autf8_bytes_ok; assumption.
+Qed.
+
+Lemma fw_body_ok o : afree_strings_ok o -> abytes_ok (fw_body o).
+Proof.
+  intro H. rewrite free_body_layout. apply abytes_ok_app. split; [apply awrite_fields_ok|apply afree_tail_ok; exact H].
+Qed.
+
+(* the header write_free_format puts in front of the object: g70, the variation, qualifier 0x5B, count 1 and
+   the number of bytes of the object *)
+Theorem free_header_layout o :
+  aw_free_bytes o = [70; afree_var o; 91; 1] ++ ale_bytes 2 (alen (fw_body o)) ++ fw_body o.
+Proof. reflexivity. Qed.
 
 (* the object headers a written header must be decoded to *)
 Definition aw_headers (h : awheader) : list aobj_header :=
@@ -22,6 +318,7 @@ Definition aw_headers (h : awheader) : list aobj_header :=
   | WCountOfOne g v obj => [amk g v (HCount8 1) (PyFixedCount 1 obj)]
   | WClearRestart => [amk 80 1 (HRange8 7 7) (PyBits 7 1 [0])]
   | WAttr _ _ _ => []      (* device attributes: framing only, outside the proved round trip (see aw_ok) *)
+  | WFree obj => [amk 70 (afree_var obj) (HFree 1) (PyFree (alen (fw_body obj)) (fw_body obj) (afree_lengths obj))]
   end.
 
 (* side conditions under which the builders produce a decodable request: the variation may be used with
@@ -48,6 +345,7 @@ Definition aw_ok (o : aopts) (fc : N) (h : awheader) : Prop :=
       /\ exists fi, afixed g v = Some fi /\ abytes_ok obj /\ N.of_nat (length obj) = fi_size fi
   | WClearRestart => (fc =? fc_read) = false
   | WAttr _ _ _ => False   (* not covered: the inner codec of g0 is modelled for the differential run only *)
+  | WFree obj => afree_strings_ok obj /\ afree_sizes_fit obj /\ alen (fw_body obj) <= 65535
   end.
 
 (* T::write of T::read of a well-sized object is the object *)
@@ -91,8 +389,8 @@ Lemma aw_header_correct o fc h : aw_ok o fc h ->
   /\ Forall (awf_header o fc) (aw_headers h)
   /\ abytes_ok (aw_bytes h).
 Proof.
-  destruct h as [g v|g v a b|g v a b|g v c|g v c|c1 c2 c3 c0|g v psize items|g v obj| |st vr vl]; cbn [aw_ok aw_headers aw_bytes];
-    [| | | | | | | | |intros []].
+  destruct h as [g v|g v a b|g v a b|g v c|g v c|c1 c2 c3 c0|g v psize items|g v obj| |st vr vl|obj]; cbn [aw_ok aw_headers aw_bytes];
+    [| | | | | | | | |intros []|].
   - intros [Hg [Hv [Hl Hk]]]. split; [reflexivity|]. split; [|abytes; reflexivity].
     constructor; [|constructor]. unfold awf_header, amk. cbn [oh_g oh_v oh_details oh_payload]. auto.
   - intros [Hg [Hv [Hl [Hab [Hb Hr]]]]]. split; [reflexivity|].
@@ -150,6 +448,21 @@ Proof.
     split; [vm_compute; reflexivity|]. split; [lia|]. split; [lia|]. unfold aranged_wf. rewrite Hfc.
     replace (aqkind qt_range 80 1) with (Some DBits) by (vm_compute; reflexivity).
     exists [0]. split; [reflexivity|vm_compute; reflexivity].
+  - intros [Hs [Hfit Hlen]].
+    assert (Hv : afree_var obj < 256 /\ alookup 70 (afree_var obj) = true /\ aqkind qt_free 70 (afree_var obj) = Some DFree).
+    { destruct obj; cbn [afree_var]; (split; [lia|split; vm_compute; reflexivity]). }
+    destruct Hv as [Hv [Hl Hk]]. split; [|split].
+    + unfold aw_free_bytes, aencode_header, amk.
+      cbn [map concat oh_g oh_v oh_details oh_payload aqualifier adetail_bytes apayload_bytes app].
+      rewrite app_nil_r. reflexivity.
+    + constructor; [|constructor]. unfold awf_header, amk. cbn [oh_g oh_v oh_details oh_payload].
+      split; [exact Hl|]. split; [reflexivity|]. split; [exact Hk|].
+      exists (alen (fw_body obj)), (fw_body obj), (afree_lengths obj). split; [reflexivity|]. split; [lia|].
+      split; [reflexivity|]. apply free_parse_round_trip; [exact Hs|].
+      destruct (free_write_result obj) as [[_ E]|[Hn _]]; [exact E|contradiction].
+    + unfold aw_free_bytes. apply abytes_ok_app. split; [|apply fw_body_ok; exact Hs].
+      apply Forall_cons; [lia|]. apply Forall_cons; [exact Hv|]. apply Forall_cons; [vm_compute; reflexivity|].
+      apply Forall_cons; [lia|]. apply Forall_cons; [apply alo8_lt|]. apply Forall_cons; [apply ahi8_lt|constructor].
 Qed.
 
 Lemma aw_requests_correct o fc hs : Forall (aw_ok o fc) hs ->
